@@ -1340,7 +1340,7 @@ class StrRef:
         o = self.E["out"]
         d = BV(p, 64) - self.ev
         esc_b = z3.If(d == 0, o[0], z3.If(d == 1, o[1], z3.If(d == 2, o[2], o[3])))
-        return z3.If(z3.ULT(BV(p, 64), self.ev), self.W[p] if p < len(self.W) else BV(0, 8), esc_b)
+        return z3.If(z3.Or(self.none, z3.ULT(BV(p, 64), self.ev)), self.W[p] if p < len(self.W) else BV(0, 8), esc_b)
 
 
 CLASSES = {"u_hex_digit_below_0x30": "cls_f3"}     # exclusion predicates a known_findings entry may name
@@ -1381,18 +1381,31 @@ def _class_loop(L, ctx, f, claim, hyp, SR, excl, op, replay_hyp):
         m = L.refute(f, claim, hyp + [z3.Not(x) for x in excl.values()])
         if m is None:
             return True
-        # a replayable instance: first iteration of a call (cursor = src, nothing decoded yet), benign bytes after the escape
-        benign = [z3.Implies(z3.UGE(BV(j, 64), SR.ev + 12), SR.W[j] == 0x78) for j in range(WIN)]
+        # a replayable instance: first iteration of a call (cursor = src, nothing decoded yet); preferably with only
+        # plain bytes / a closing quote after the escape so that the rest of the string cannot mask the difference
+        benign = [z3.Implies(z3.UGE(BV(j, 64), SR.ev + 12), z3.Or(SR.W[j] == 0x78, SR.W[j] == 0x22)) for j in range(WIN)]
         base = hyp + [z3.Not(x) for x in excl.values()] + replay_hyp
-        m2 = L.refute(f, claim, base + benign) or L.refute(f, claim, base)
-        if m2 is None:
-            raise Inconclusive("%s: counterexample exists only away from the first iteration; cannot be replayed natively; model=%s"
-                               % (L.name, [mval(m, b) for b in SR.W]))
-        wb = bytes(mval(m2, b) for b in SR.W)
-        cls = [name for name, attr in CLASSES.items() if mval(m2, getattr(SR, attr))]
-        q = _str_replay_request(op, wb)
-        what = "decoder step differs from REF-STR on %r" % wb
-        w = L.counterexample(what, {"request": _jsonable(q), "classes": cls}, lambda w_: _str_replay(q))
+        w = None
+        tried = []
+        for extra in (benign + [SR.ev == 0], benign, []):
+            m2 = L.refute(f, claim, base + extra)
+            if m2 is None:
+                continue
+            wb = bytes(mval(m2, b) for b in SR.W)
+            cls = [name for name, attr in CLASSES.items() if mval(m2, getattr(SR, attr))]
+            q = _str_replay_request(op, wb)
+            what = "decoder step differs from REF-STR on %r" % wb
+            ctx.replays += 1
+            ok, detail = _str_replay(q)
+            ctx.log("[replay] %s: %s (%s)" % (L.name, "reproduced" if ok else "NOT reproduced", detail))
+            if ok:
+                w = {"request": _jsonable(q), "classes": cls, "native": detail}
+                ctx.sample({"lemma": L.name, "counterexample": what, "witness": w})
+                break
+            tried.append(detail)
+        if w is None:
+            raise Inconclusive("%s: counterexample does not reproduce on the real code (engine error, or visible only away from the "
+                               "first iteration): window=%s; %s" % (L.name, [mval(m, b) for b in SR.W], tried))
         k = None
         for kn in known_for(ctx, L.name):
             if kn.get("exclusion") in cls:
@@ -1687,4 +1700,174 @@ def S4(ctx):
             m = L.refute(a, z3.Implies(resv != 0, sl - off == dl - dlen), hyp)
             if m is not None:
                 raise Inconclusive("S4: accepting step changes str_length and dst_length by different amounts")
+    return L.finish()
+
+
+def str_steps_py(buf, maxs):
+    """concrete REF-STR in the decoder's step granularity (32-byte windows) incl. the maxStringSize cut-off:
+    returns (status, str_len, dst_len)"""
+    if maxs == 0:
+        return "reject", 0, 0
+    c = d = 0
+    while True:
+        w = buf[c:c + 32]
+        ev = next((i for i, b in enumerate(w) if b in (0x22, 0x5C)), None)
+        if ev is None:
+            c, d = c + 32, d + 32
+        elif w[ev] == 0x22:
+            return "accept", c + ev, d + ev
+        else:
+            st, used, out = refs.str_py(bytes(buf[c + ev:c + ev + 12]) + b'"')
+            # one escape only: re-run the scalar reference on exactly this escape
+            st1, n1, o1 = _one_escape(buf[c + ev:c + ev + 12])
+            if st1 != "ok":
+                return st1, 0, 0
+            c, d = c + ev + n1, d + ev + len(o1)
+        if c >= maxs:
+            return "reject", 0, 0
+
+
+def _one_escape(e):
+    HEX = b"0123456789abcdefABCDEF"
+    if len(e) < 2:
+        return "reject", 0, b""
+    if e[1] in refs.ESC:
+        return "ok", 2, bytes([refs.ESC[e[1]]])
+    if e[1] != 0x75 or len(e) < 6 or any(x not in HEX for x in e[2:6]):
+        return "reject", 0, b""
+    h = int(bytes(e[2:6]).decode(), 16)
+    if 0xDC00 <= h <= 0xDFFF:
+        return "dontcare", 0, b""
+    if 0xD800 <= h <= 0xDBFF:
+        if len(e) < 12 or bytes(e[6:8]) != b"\\u" or any(x not in HEX for x in e[8:12]):
+            return "dontcare", 0, b""
+        l = int(bytes(e[8:12]).decode(), 16)
+        if not (0xDC00 <= l <= 0xDFFF):
+            return "dontcare", 0, b""
+        return "ok", 12, chr(0x10000 + ((h - 0xD800) << 10) + (l - 0xDC00)).encode("utf-8")
+    return "ok", 6, chr(h).encode("utf-8")
+
+
+def S2(ctx, iters=2, shard=None):
+    """_parse_string_validate_only as a whole (entry, maxStringSize == 0, loop, cut-off, exit stores) on every string that
+    needs <= iters decoder iterations; maxStringSize symbolic.  shard = (i, n) restricts to the i-th of n groups of
+    first-iteration paths (for parallel runs)."""
+    iters = int(iters)
+    N = 43 * (iters - 1) + WIN
+    nm = "S2[%d]" % iters + ("" if shard is None else "#%d/%d" % (shard[0], shard[1]))
+    L = LemmaRun(ctx, nm, bound="whole function, strings needing <= %d iterations (%d symbolic bytes), maxStringSize symbolic" % (iters, N))
+    ex, prog = L.ex, L.prog
+    head, _ = _ps_heads(prog)
+    ctx.assume("S2: paths needing more than %d iterations are outside the bound (covered inductively by S1)" % iters)
+    st = fresh_state()
+    Bs = [z3.BitVec("s%03d" % i, 8) for i in range(N)]
+    src = st.add_region("src", N, writable=False, default="none", data=Bs)
+    maxs = z3.BitVec("maxStringSize", 64)
+    c_ = lambda n, v: BV(st.cell(n, v), 64)
+    pm, ps, pd = c_("maxs", maxs), c_("slen", z3.BitVec("slen_init", 64)), c_("dlen", z3.BitVec("dlen_init", 64))
+    set_args(st, [BV(src.base, 64), pm, ps, pd])
+    hyp = [z3.ULT(maxs, 1 << 62)]
+    ex.assumptions = list(hyp)
+    st.pc = prog.entry("_parse_string_validate_only")
+    # reference: REF-STR steps with a symbolic cursor
+    big = join(Bs + [BV(0, 8)] * WIN)
+    refsteps = []
+    cur, dl = BV(0, 64), BV(0, 64)
+    for k in range(iters):
+        sh = z3.LShR(big, z3.ZeroExt(big.size() - 64, cur) << 3)
+        Wk = [z3.Extract(8 * j + 7, 8 * j, sh) for j in range(WIN)]
+        SR = StrRef(Wk)
+        refsteps.append((cur, dl, SR))
+        cur, dl = cur + SR.adv, dl + SR.dadv
+    refsteps.append((cur, dl, None))
+    excl_known = []
+    level = [st]
+    done = []
+    dropped = 0
+    for k in range(iters + 1):
+        nxt = []
+        for s in level:
+            fins = ex.run(s, stop_at=[head])
+            for f in fins:
+                if f.exit == "ret":
+                    f.iters = k
+                    done.append(f)
+                else:
+                    nxt.append(f)
+        if k == 0 and shard is not None:
+            nxt = nxt        # the prologue yields a single head state; sharding happens after the first iteration
+        if k == 1 and shard is not None:
+            nxt = [f for j, f in enumerate(nxt) if j % shard[1] == shard[0]]
+            done = [f for j, f in enumerate(done) if f.iters == 0 or j % shard[1] == shard[0]]
+        if k == iters:
+            dropped = len(nxt)
+            nxt = []
+        level = nxt
+    ex.assumptions = []
+    L.notes.append("%d returning paths checked, %d paths continue beyond %d iterations (outside the bound)" % (len(done), dropped, iters))
+    f3 = lambda upto: z3.Or(*[refsteps[j][2].cls_f3 for j in range(upto)]) if upto else z3.BoolVal(False)
+    excl = {}
+    for f in done:
+        L.paths += 1
+        m_it = f.iters            # number of completed loop iterations before this return (0 = returned from the prologue)
+        L.reach(f, "ret.after%d" % m_it, hyp)
+        res, sl, dlv = get_result(f, 4), f.read_cell("slen"), f.read_cell("dlen")
+        if m_it == 0:
+            claim = z3.And(maxs == 0, res == 0)
+            used = 0
+        else:
+            used = m_it
+            # reference run over the first m_it steps: first terminal status wins
+            running = maxs != 0
+            acc, rej, dcs = z3.BoolVal(False), maxs == 0, z3.BoolVal(False)
+            a_sl, a_dl = BV(0, 64), BV(0, 64)
+            for j in range(m_it):
+                cj, dj, SRj = refsteps[j]
+                dcs = z3.Or(dcs, z3.And(running, SRj.dontcare))
+                acc_j = z3.And(running, SRj.is_quote)
+                a_sl = z3.If(acc_j, cj + SRj.ev, a_sl)
+                a_dl = z3.If(acc_j, dj + SRj.ev, a_dl)
+                acc = z3.Or(acc, acc_j)
+                cut = z3.And(SRj.cont, z3.UGE(cj + SRj.adv, maxs))
+                rej = z3.Or(rej, z3.And(running, z3.Or(SRj.reject, cut)))
+                running = z3.And(running, SRj.cont, z3.Not(cut))
+            claim = z3.Or(dcs, z3.And(acc, res != 0, sl == a_sl, dlv == a_dl), z3.And(rej, res == 0))
+        while True:
+            m = L.refute(f, claim, hyp + [z3.Not(x) for x in excl.values()])
+            if m is None:
+                break
+            data = bytes(mval(m, b) for b in Bs)
+            mx = mval(m, maxs)
+            q = {"op": "psv", "fam": "avx2", "buf": data + PAD, "a": [mx, 0, 0]}
+            cls = ["u_hex_digit_below_0x30"] if used and mval(m, f3(used)) else []
+
+            def rp(w_):
+                n = replay.native([q])[0]
+                stt, sl_, dl_ = str_steps_py(data + PAD, mx)
+                r_, s_, d_ = n["r"]
+                if stt == "dontcare":
+                    return False, "reference: don't care"
+                bad = (r_ != 0) != (stt == "accept") or (stt == "accept" and (s_, d_) != (sl_, dl_))
+                return bad, "native r=%s reference=%s %d %d" % (n["r"], stt, sl_, dl_)
+            what = "whole-function result differs from REF-STR on %r (maxStringSize=%d)" % (data, mx)
+            w = L.counterexample(what, {"request": _jsonable(q), "classes": cls}, rp)
+            k = None
+            for kn in known_for(ctx, "S2"):
+                if kn.get("exclusion") in cls:
+                    k = kn
+            if k is not None:
+                ctx.report_known(k)
+                if L.verdict == "unsat":
+                    L.verdict = "known-finding"
+            else:
+                ctx.report_violation("%s: %s%s" % (L.name, what, (" [class %s]" % ",".join(cls)) if cls else ""), w)
+                L.verdict = "sat"
+            if not cls:
+                return L.finish()
+            excl["u_hex_digit_below_0x30"] = f3(iters)
+        o, m = L.bounds(f, hyp + [z3.Not(x) for x in excl.values()])
+        if o is not None:
+            raise Inconclusive("%s: load outside the %d-byte source region: %s" % (L.name, N, o.what))
+    if excl:
+        L.notes.append("re-queried with exclusion(s) %s: no other difference" % sorted(excl))
     return L.finish()
